@@ -317,7 +317,7 @@ func (o *oracle) ioFields(io *IO) (fs []Fld, isObj bool, wrapped *Ty) {
 	return nil, false, io.T
 }
 
-func (o *oracle) checkTop(msg string, io *IO, removed [][]string, where string) {
+func (o *oracle) checkTop(msg string, io *IO, removed [][]string, mapped bool, where string) {
 	fs, isObj, wrapped := o.ioFields(io)
 	if !isObj {
 		// primitive / array / map / alias: one required field named field numbered 1
@@ -346,10 +346,8 @@ func (o *oracle) checkTop(msg string, io *IO, removed [][]string, where string) 
 		return
 	}
 	kind := "top"
-	for _, r := range removed {
-		if len(r) > 0 {
-			kind = "top-mapped"
-		}
+	if mapped { // explicit Metadata / Headers / Trailers (credentials moved by goa itself do not switch validation off)
+		kind = "top-mapped"
 	}
 	o.checkMessage(msg, without(fs, removed...), &scope{Kind: kind, Where: where}, where)
 }
@@ -405,15 +403,15 @@ func Check(d *Design, svc *Svc, text string) []Finding {
 		// ---- designed content of the request / response messages
 		w := svc.Name + "." + m.Name
 		if wantReq {
-			o.checkTop(r.Req, m.SPayload, nil, w+" streaming request")
+			o.checkTop(r.Req, m.SPayload, nil, false, w+" streaming request")
 		} else {
-			o.checkTop(r.Req, m.Payload, [][]string{m.Metadata}, w+" request")
+			o.checkTop(r.Req, m.Payload, [][]string{m.Metadata, m.SecNames(o.d)}, len(m.Metadata) > 0, w+" request")
 		}
 		res := m.Result
 		if m.SResult != nil {
 			res = m.SResult
 		}
-		o.checkTop(r.Resp, res, [][]string{m.Headers, m.Trailers}, w+" response")
+		o.checkTop(r.Resp, res, [][]string{m.Headers, m.Trailers}, len(m.Headers)+len(m.Trailers) > 0, w+" response")
 	}
 
 	// ---- every message: numbers, names, references, map keys
